@@ -625,7 +625,10 @@ def _judge(ctx: Ctx, rows: dict, bad: dict, stats: list[dict], dec: dict, phase:
                 ctx.note_drift(f"{c.split('_', 1)[1]}:{cls}")
         if "DRIFT_encoding_differs_from_layout" in clauses and rid in spec_bytes and row["t"] == "enc":
             sb = spec_bytes[rid]
-            r2 = roundtrip_row(f"sd:{rid}", row["k"], None, dec, t_="specdec", wire=sb, f=row["f"])
+            f = row["f"]
+            if row["k"] == "pdu" and f["hdr"]["frag_len"] != len(sb):      # Norm(k, f) of TraceRpcPdu
+                f = {**f, "hdr": {**f["hdr"], "frag_len": len(sb)}}
+            r2 = roundtrip_row(f"sd:{rid}", row["k"], None, dec, t_="specdec", wire=sb, f=f)
             r2["cls"] = cls
             follow.append(r2)
         if not real:
